@@ -381,6 +381,55 @@ pub fn generate(seed: u64, n: usize, thorough: bool, corpus: Option<&str>) -> Ve
         push(format!("min y\ns.t.\n    y >= len(r)\n    y >= sum(i in r) {{ i }}\nwhere\n    {}\ndefine\n    y as Real\n", d), "printer-edges", &mut cases);
     }
 
+    // --- MALFORMED programs, by class: every error of the AST builders at every position of a program, pairs of errors
+    //     (which one is reported first), and texts the grammar refuses; parsed by the implementation and by the parser
+    //     model, the CLASS of the rejection is compared (tags `program-rejected:<class>`)
+    let big = "99999999999999999999";
+    let frame = |obj: &str, cons: &str, decl: &str| format!("{}\ns.t.\n    {}\n{}", obj, cons, decl);
+    let malformed: Vec<String> = vec![
+        // objective kind in the wrong letter case (pest matches ^"min", the builder only knows "min")
+        frame("MIN x", "x >= 1", ""), frame("Max x", "x >= 1", ""), frame("SOLVE", "x >= 1", ""), frame("Solve", "x >= 1", ""), frame("mIn x", "x >= 1", ""),
+        // integer beyond i64 at every position of a program
+        frame(&format!("min {}", big), "x >= 1", ""), frame("min x", &format!("x >= {}", big), ""), frame("min x", &format!("{} >= x", big), ""),
+        frame("min x", &format!("c_{}: x >= 1", big), ""), frame("min x", &format!("c_{{{}}}: x >= 1", big), ""),
+        frame("min x", &format!("x >= 1 for i in 0..{}", big), ""), frame("min x", &format!("x >= 1 for i in {}..3", big), ""),
+        frame("min x", &format!("x_i >= 1 for i in 0..3, j in 0..{}", big), ""),
+        frame("min x", "x >= k", &format!("where\n    let k = {}\n", big)), frame("min x", "x >= k", &format!("where\n    let k = [1, {}]\n", big)),
+        frame("min x", "x >= 1", &format!("define\n    x as Real({}, 1)\n", big)), frame("min x", "x >= 1", &format!("define\n    x as Real(0, {})\n", big)),
+        frame("min x", "x >= 1", &format!("define\n    x as Real(0, 1, {})\n", big)), frame("min x", "x >= 1", &format!("define\n    x as IntegerRange(0, {})\n", big)),
+        frame("min x", "x >= 1", &format!("define\n    x_{} as Real\n", big)), frame("min x", "x >= 1", &format!("define\n    x_i as Real for i in 0..{}\n", big)),
+        frame("min x", "x >= 1", &format!("define\n    x_{{{}}}, y as Boolean\n", big)),
+        // unknown variable type, IntegerRange without both bounds
+        frame("min x", "x >= 1", "define\n    x as Foo\n"), frame("min x", "x >= 1", "define\n    x as Integer\n"), frame("min x", "x >= 1", "define\n    x as real\n"),
+        frame("min x", "x >= 1", "define\n    x as Foo(1, 2)\n"), frame("min x", "x >= 1", "define\n    x as Boolean(0, 1)\n"), frame("min x", "x >= 1", "define\n    x as IntegerRange\n"),
+        frame("min x", "x >= 1", "define\n    x as IntegerRange(1)\n"), frame("min x", "x >= 1", "define\n    x as IntegerRange(1, 2, 3)\n"), frame("min x", "x >= 1", "define\n    x as Real(1)\n"),
+        frame("min x", "x >= 1", "define\n    x as NonNegativeReal(1, 2, 3)\n"),
+        // unknown / wrong-arity blocks inside a program
+        frame("min foo { x }", "x >= 1", ""), frame("min x", "foo(i in 0..2) { x } >= 1", ""), frame("min x", "x >= abs { 1, 2 }", ""),
+        frame("min x", "x >= 1 for i in foo { 1 }..2", ""), frame("min x", "x >= 1", "define\n    x as Real(abs { 1, 2 }, 3)\n"),
+        // two errors: the first in the order of the builders (objective, constraints (name, iteration, sides), constants, domains
+        // (variables, type, iteration))
+        frame("MIN x", &format!("x >= {}", big), ""), frame(&format!("min {}", big), "foo { 1 } >= 1", ""), frame("min x", &format!("foo {{ 1 }} >= {}", big), ""),
+        frame("min x", &format!("{} >= 1 for i in 0..foo {{ 1 }}", big), ""), frame("min x", &format!("c_{}: foo {{ 1 }} >= 1", big), ""),
+        frame("min x", &format!("x >= {}", big), "define\n    x as Foo\n"), frame("min x", "x >= k", &format!("where\n    let k = {}\ndefine\n    x as Foo\n", big)),
+        frame("min x", "x >= 1", &format!("define\n    x as Foo({})\n", big)), frame("min x", "x >= 1", &format!("define\n    x as Foo for i in 0..{}\n", big)),
+        frame("min x", "x >= 1", &format!("define\n    x_{} as Foo\n", big)), frame("min x", "x >= 1", &format!("define\n    x as IntegerRange({})\n", big)),
+        frame("min x", "x >= 1", &format!("define\n    x as Real\n    y as Foo\n    z as Real({}, 1)\n", big)),
+        // refused by the grammar
+        frame("min", "x >= 1", ""), frame("minimize x", "x >= 1", ""), frame("min x", "", ""), "min x\n".to_string(), "min x\ns.t.".to_string(), "s.t.\n    x >= 1\n".to_string(),
+        frame("min x", "x >= 1 >= 0", ""), frame("min x", "x >= ", ""), frame("min x", ">= 1", ""), frame("min x", "c: ", ""), frame("min x", ": x >= 1", ""),
+        frame("min x", "x >= 1 for", ""), frame("min x", "x >= 1 for i", ""), frame("min x", "x >= 1 for i in", ""), frame("min x", "x >= 1 for i in 0..", ""),
+        frame("min x", "x >= 1 for i in 0..3,", ""), frame("min x", "x >= 1 for (i, j) 0..3", ""), frame("min x", "x >= 1 for i in 0..3 for j in 0..2", ""),
+        frame("min x", "x >= 1", "where\n"), frame("min x", "x >= 1", "where\n    let k\n"), frame("min x", "x >= 1", "where\n    let k =\n"), frame("min x", "x >= 1", "where\n    k = 2\n"),
+        frame("min x", "x >= 1", "where\n    let 2 = k\n"), frame("min x", "x >= 1", "define\n    x\n"), frame("min x", "x >= 1", "define\n    x as\n"), frame("min x", "x >= 1", "define\n    x Real\n"),
+        frame("min x", "x >= 1", "define\n    x, as Real\n"), frame("min x", "x >= 1", "define\n    x as Real(\n"), frame("min x", "x >= 1", "define\n    x as Real(1,)\n"),
+        frame("min x", "x >= 1", "define\n    x as Real()\n"), frame("min x", "x >= 1", "define\n    x as Real for\n"), frame("min x", "x >= 1", "define\n    x as min\n"),
+        frame("min x", "x >= 1", "define\n    x as Real\nwhere\n    let k = 1\n"), frame("min x", "x >= 1", "where\n    let k = 1\nwhere\n    let j = 1\n"),
+        frame("min x", "", "where\n    let k = 1\n"), frame("min x", "", "define\n    x as Real\n"), frame("min x max y", "x >= 1", ""), frame("min x", "x >= 1\n    max y", ""),
+    ];
+    let mut extra: Vec<Case> = vec![];
+    for t in malformed { if let Some(c) = parse_case(&t, "malformed-by-class") { extra.push(c) } }
+
     // --- random programs over the expression sub-language (random spelling, parentheses, spacing)
     let core = GenCfg { calls: false, odd_words: false, bools: true, blocks: false };
     let mut made = 0;
@@ -427,5 +476,6 @@ pub fn generate(seed: u64, n: usize, thorough: bool, corpus: Option<&str>) -> Ve
             r.pick(&["<=", ">=", "=", "<", ">"]), r.pick(&["2", "3"]), r.pick(&["Boolean", "NonNegativeReal", "Real(0, 1)"]), r.pick(&["Real", "NonNegativeReal(0, 10)"]));
         push(t2, "templates-graph", &mut cases);
     }
+    cases.extend(extra);
     cases
 }
